@@ -11,7 +11,7 @@
    tied to the implementation by the correspondence and the merge oracle only. *)
 From Coq Require Import List NArith ZArith Arith Bool Lia.
 From Verif Require Import Base.Outcome Wire.Item C19.Spec C19.Model C19.Loops C19.Proofs
-     C19.ProofsMerge C19.ProofsPaths C19.ProofsKeep C19.ProofsIdem C19.ProofsTop.
+     C19.ProofsMerge C19.ProofsPaths C19.ProofsKeep C19.ProofsIdem C19.ProofsTop C19.ProofsLen.
 Import ListNotations.
 
 (* NIL: a nil decoded into ANY type with ANY previous content — at the top level, as a slice
@@ -93,6 +93,21 @@ Theorem C19_keep_map : forall (fp : bool) (o : dopts) (e : ty) (m : list (str * 
 Proof. exact keep_map_top. Qed.
 Print Assumptions C19_keep_map.
 
+(* LENGTH: a slice decoded from a stream array ends with exactly the length of the stream array,
+   whatever its previous length, and element j is stream element j decoded into what was at j
+   (the zero value beyond the previous length, or under SliceElementReset where the path consults
+   it): no trailing elements, none missing.  The model has no capacity; the implementation's
+   pre-sizing to min(stream length, max(1024, MaxInitLen)) and its growing inside the element loop
+   are tied to this by the harness (stream arrays longer than the cap). *)
+Theorem C19_slice_len : forall (fp : bool) (o : dopts) (e : ty) (d : gv) (l : list item) (r : gv),
+  dec_impl fp o (TSlice e) d (IArr l) = Ok r ->
+  exists xs, r = VSlice (Some xs) /\ length xs = length l /\
+    forall j x, nth_error l j = Some x ->
+      exists y, nth_error xs j = Some y /\
+        dec_refl fp o e (if refl_reset fp o e then zero_of e else nth j (old_slice d) (zero_of e)) x = Ok y.
+Proof. exact slice_law. Qed.
+Print Assumptions C19_slice_len.
+
 (* PATHS: the generated fast-path functions equal the reflection path on every type they cover
    in this universe ([]int, []string, []interface{}, map[string]int/string/interface{}), for
    every destination, every stream item and every option vector: against the reflection path
@@ -143,3 +158,11 @@ Example C19_merge_nonvacuous :
   dec_impl true (mkDopts true true true false) t (VStruct [VPtr None; VMap None]) it
   = Ok (VStruct [VPtr (Some (VSlice (Some [VInt 1; VInt 0]))); VMap (Some [([107]%N, VIface (Some (VStr [118]%N)))])]).
 Proof. vm_compute. repeat apply conj; reflexivity. Qed.
+
+Example C19_slice_len_nonvacuous :
+  let o := mkDopts false false false false in
+  let t := TStruct [([65]%N, TInt); ([66]%N, TStr)] in
+  dec_impl false o (TSlice t) (VSlice (Some [VStruct [VInt 1; VStr [111]%N]]))
+    (IArr [IMap [(IStr [65]%N, IInt 9)]; IMap [(IStr [65]%N, IInt 8)]; INil])
+  = Ok (VSlice (Some [VStruct [VInt 9; VStr [111]%N]; VStruct [VInt 8; VStr []]; VStruct [VInt 0; VStr []]])).
+Proof. vm_compute. reflexivity. Qed.
